@@ -541,12 +541,22 @@ func runCase(c Case, u *vf.Unit, trace *any) *vf.Verdict {
 			wg.Add(2)
 			go func() {
 				defer wg.Done()
+				// every message is formatted into one scratch buffer that is overwritten as soon as SendDatagram has
+				// returned (a relay does that): the connection has to own what it queued
+				var scratch []byte
 				for k := 0; k < c.Datagrams; k++ {
-					msg := append([]byte(fmt.Sprintf("%s-%d-", mine, k)), pattern(c.Seed, 1000+k, 5+k*70)...)
-					if err := me.SendDatagram(msg); err != nil {
+					scratch = append(scratch[:0], fmt.Sprintf("%s-%d-", mine, k)...)
+					scratch = append(scratch, pattern(c.Seed, 1000+k, 5+k*70)...)
+					err := me.SendDatagram(scratch)
+					for i := range scratch {
+						scratch[i] = 'X'
+					}
+					if err != nil {
 						return
 					}
-					time.Sleep(time.Millisecond)
+					if c.Seed%3 != 0 {
+						time.Sleep(time.Millisecond) // a third of the cases send the datagrams as one burst
+					}
 				}
 			}()
 			go func() {
